@@ -17,3 +17,28 @@ proof fn lemma_adv_nonneg(line: int, col: int, t: Seq<char>)
 {
     if t.len() > 0 { lemma_adv_nonneg(if t[0] == '\n' { line + 1 } else { line }, if t[0] == '\n' { 0 } else { col + utf16_len(t[0]) }, t.skip(1)); }
 }
+spec fn invalid_name() -> Seq<char> { "__INVALID_SCOPE_NAME__"@ }
+impl<'s> Stringifier<'s> {
+    /// the printed name of scope `index` (C14: every ScopeRef is printed through this)
+    spec fn scope_text(&self, index: int) -> Seq<char> {
+        if 0 <= index < self.scope_names@.len() { self.scope_names@[index]@ } else { invalid_name() }
+    }
+    spec fn same_but_scopes(&self, old: &Self) -> bool {
+        self.w == old.w && self.line == old.line && self.utf16_col == old.utf16_col && self.smb == old.smb
+            && self.source_path == old.source_path && self.mangling == old.mangling
+    }
+}
+/// room for a + b means room for a, and after writing a, room for b
+proof fn lemma_room_split(line: int, col: int, a: Seq<char>, b: Seq<char>)
+    requires line + count_nl(a + b) <= u32::MAX, col + u16len(a + b) <= u32::MAX, u16len(a + b) <= u32::MAX, line >= 0, col >= 0,
+    ensures
+        line + count_nl(a) <= u32::MAX, col + u16len(a) <= u32::MAX, u16len(a) <= u32::MAX,
+        adv_line(line, a) + count_nl(b) <= u32::MAX, adv_col(col, a) + u16len(b) <= u32::MAX, u16len(b) <= u32::MAX,
+        adv_line(line, a) >= 0, adv_col(col, a) >= 0,
+{
+    lemma_count_split(a, b);
+    lemma_count_split(Seq::<char>::empty(), a);
+    assert(Seq::<char>::empty() + a =~= a);
+    lemma_adv_closed(line, col, a);
+    if last_nl(a) >= 0 { lemma_last_line(a); }
+}
